@@ -83,7 +83,11 @@ class SpliceInsert(ObjectWithFields):
         if not kwargs['program_splice_flag']:
             component_count = r.get(8, 'component_count')
             for j in range(component_count):
-                kwargs['components'].append(ElementaryComponent.parse(r))
+                if kwargs['splice_immediate_flag']:
+                    # there is no splice_time() when splice_immediate_flag is set
+                    kwargs['components'].append({'tag': r.get(8, 'tag'), 'splice_time': None})
+                else:
+                    kwargs['components'].append(ElementaryComponent.parse(r))
         if kwargs['duration_flag']:
             kwargs['break_duration'] = BreakDuration.parse(r)
         else:
@@ -114,7 +118,8 @@ class SpliceInsert(ObjectWithFields):
             w.write(8, 'component_count', value=len(self.components))
             for comp in self.components:
                 w.write(8, 'tag', value=comp.tag)
-                comp.splice_time.encode(w)
+                if not self.splice_immediate_flag:
+                    comp.splice_time.encode(w)
         if self.break_duration:
             self.break_duration.encode(w)
         w.write(16, 'unique_program_id')
